@@ -122,6 +122,11 @@ class Reg(Logic):
         if not(self.e is None): msg += 'E'
         if not(self.reset_value == 0): msg += '_v{}'.format(self.reset_value).replace('-', 'm') # must be an identifier
         
+        # the clock port of the module is named after the clock driver, registers
+        # of differently named clocks cannot share a module
+        clkname = getObjectClockDriver(self).name
+        if (clkname != 'clk'): msg += '_' + clkname
+        
         return msg
             
 class TReg(Logic):
